@@ -27,8 +27,8 @@ func init() {
 
 type copier struct {
 	dispatch, hStruct, hPtr, hIface, hMap, hSlice, hArray, valM *ssa.Function
-	real, valF, newC                                              *ssa.Function
-	scc                                                           map[*ssa.Function]bool
+	real, valF, newC                                            *ssa.Function
+	scc                                                         map[*ssa.Function]bool
 }
 
 func loadCopier(c *Ctx) *copier {
